@@ -241,6 +241,289 @@ def op_s_repeat():
     return {"function": fs[0], "model": ms[0], "flag": b"repeat-identical" if same else b"REPEAT-DIFFERS"}
 
 
+# ------------------------------------------------------------------------------------------ later calls
+# "mutating globals afterwards changes neither the generated protos nor later calls": the script function is
+# decorated, called eagerly and its ModelProto run on onnxruntime; then the global it refers to is rebound /
+# mutated in place; then both are done again.  Everything observed is returned (harness/c14.py compares).
+
+G_FLOAT = 2.0
+G_LIST = [1.0, 2.0, 3.0]
+G_LIST2 = [1.0, 2.0, 3.0]
+G_AXIS = 0
+G_FLAG = True
+G_TRIPS = 3
+G_STEP = 1.5
+G_ARRAY = np.array([1.0, 2.0, 3.0], dtype=np.float32)
+
+
+def _ort_run(model_proto, args):
+    import onnxruntime as ort
+    so = ort.SessionOptions()
+    so.graph_optimization_level = ort.GraphOptimizationLevel.ORT_DISABLE_ALL
+    so.log_severity_level = 4
+    sess = ort.InferenceSession(model_proto.SerializeToString(), so, providers=["CPUExecutionProvider"])
+    return sess.run(None, {i.name: a for i, a in zip(sess.get_inputs(), args)})[0]
+
+
+def _obs(thunk):
+    try:
+        r = np.asarray(thunk())
+        return (str(r.dtype) + str(r.shape) + repr(r.tolist())).encode()
+    except Exception as e:  # noqa: BLE001
+        return ("ERR " + type(e).__name__).encode()
+
+
+def _later_calls(f, args, mutate, restore):
+    out = {"function": _ser(f.to_function_proto()), "model": _ser(f.to_model_proto())}
+    out["eager_before"] = _obs(lambda: f(*args))
+    out["proto_before"] = _obs(lambda: _ort_run(f.to_model_proto(), args))
+    try:
+        mutate()
+        out["eager_after"] = _obs(lambda: f(*args))
+        out["proto_after"] = _obs(lambda: _ort_run(f.to_model_proto(), args))
+        out["function_after"] = _ser(f.to_function_proto())
+        out["eager_again"] = _obs(lambda: f(*args))
+    finally:
+        restore()
+    return out
+
+
+_X3 = np.array([1.0, 2.0, 3.0], dtype=np.float32)
+_X23 = np.arange(6, dtype=np.float32).reshape(2, 3)
+
+
+def op_s_later_float():
+    """a float global used as a tensor constant; rebound after decoration"""
+    global G_FLOAT
+
+    @script(default_opset=op)
+    def later_float(x: FLOAT[None]) -> FLOAT[None]:
+        return x * G_FLOAT
+
+    def mutate():
+        global G_FLOAT
+        G_FLOAT = 99.0
+
+    def restore():
+        global G_FLOAT
+        G_FLOAT = 2.0
+
+    return _later_calls(later_float, (_X3,), mutate, restore)
+
+
+def op_s_later_list_rebound():
+    """a list global used as a tensor constant; the name is rebound to another list"""
+    @script(default_opset=op)
+    def later_list(x: FLOAT[None]) -> FLOAT[None]:
+        return x + op.Constant(value_floats=G_LIST)
+
+    def mutate():
+        global G_LIST
+        G_LIST = [5.0, 5.0, 5.0]
+
+    def restore():
+        global G_LIST
+        G_LIST = [1.0, 2.0, 3.0]
+
+    return _later_calls(later_list, (_X3,), mutate, restore)
+
+
+def op_s_later_list_inplace():
+    """a list global used as a tensor constant; the list object is mutated in place"""
+    @script(default_opset=op)
+    def later_list2(x: FLOAT[None]) -> FLOAT[None]:
+        return x + op.Constant(value_floats=G_LIST2)
+
+    def mutate():
+        G_LIST2[0] = 41.0
+
+    def restore():
+        G_LIST2[0] = 1.0
+
+    return _later_calls(later_list2, (_X3,), mutate, restore)
+
+
+def op_s_later_int_attr():
+    """an int global used as an attribute value"""
+    @script(default_opset=op)
+    def later_attr(x: FLOAT[None, None]) -> FLOAT[None, None]:
+        return op.Concat(x, x, axis=G_AXIS)
+
+    def mutate():
+        global G_AXIS
+        G_AXIS = 1
+
+    def restore():
+        global G_AXIS
+        G_AXIS = 0
+
+    return _later_calls(later_attr, (_X23,), mutate, restore)
+
+
+def op_s_later_callee():
+    """another script function referenced by name; the name is rebound to a different script function"""
+    g = globals()
+
+    @script(default_opset=op)
+    def later_helper_a(x: FLOAT[None]) -> FLOAT[None]:
+        return x * 10.0
+
+    @script(default_opset=op)
+    def later_helper_b(x: FLOAT[None]) -> FLOAT[None]:
+        return x - 5.0
+
+    g["G_CALLEE"] = later_helper_a
+    try:
+        @script(default_opset=op)
+        def later_caller(x: FLOAT[None]) -> FLOAT[None]:
+            return G_CALLEE(x) + 1.0  # noqa: F821
+
+        def mutate():
+            g["G_CALLEE"] = later_helper_b
+
+        def restore():
+            g["G_CALLEE"] = later_helper_a
+
+        return _later_calls(later_caller, (_X3,), mutate, restore)
+    finally:
+        g.pop("G_CALLEE", None)
+
+
+def op_s_later_if_cond():
+    """a bool global used as the condition of an if statement (a constant at decoration time)"""
+    @script(default_opset=op)
+    def later_if(x: FLOAT[None]) -> FLOAT[None]:
+        if G_FLAG:
+            y = x + 1.0
+        else:
+            y = x - 1.0
+        return y
+
+    def mutate():
+        global G_FLAG
+        G_FLAG = False
+
+    def restore():
+        global G_FLAG
+        G_FLAG = True
+
+    return _later_calls(later_if, (_X3,), mutate, restore)
+
+
+def op_s_later_loop():
+    """globals used as the trip count of a for loop and inside its body"""
+    @script(default_opset=op)
+    def later_loop(x: FLOAT[None]) -> FLOAT[None]:
+        acc = x
+        for i in range(G_TRIPS):
+            acc = acc + G_STEP
+        return acc
+
+    def mutate():
+        global G_TRIPS, G_STEP
+        G_TRIPS, G_STEP = 1, 100.0
+
+    def restore():
+        global G_TRIPS, G_STEP
+        G_TRIPS, G_STEP = 3, 1.5
+
+    return _later_calls(later_loop, (_X3,), mutate, restore)
+
+
+def op_s_later_nonlocal():
+    """a variable of the enclosing python function (closure cell), rebound after decoration"""
+    scale = 3.0
+
+    @script(default_opset=op)
+    def later_nonlocal(x: FLOAT[None]) -> FLOAT[None]:
+        return x * scale
+
+    def mutate():
+        nonlocal scale
+        scale = -7.0
+
+    def restore():
+        nonlocal scale
+        scale = 3.0
+
+    return _later_calls(later_nonlocal, (_X3,), mutate, restore)
+
+
+def op_s_later_array_inplace():
+    """a numpy array global used as a tensor constant, mutated in place"""
+    @script(default_opset=op)
+    def later_array(x: FLOAT[None]) -> FLOAT[None]:
+        return x + op.Constant(value=G_ARRAY)
+
+    def mutate():
+        G_ARRAY[1] = -50.0
+
+    def restore():
+        G_ARRAY[1] = 2.0
+
+    return _later_calls(later_array, (_X3,), mutate, restore)
+
+
+G_ARRAY2 = np.array([1.0, 2.0, 3.0], dtype=np.float32)
+
+
+def op_s_later_array_expr():
+    """a numpy array global used directly as an operand, mutated in place"""
+    @script(default_opset=op)
+    def later_array2(x: FLOAT[None]) -> FLOAT[None]:
+        return x + G_ARRAY2
+
+    def mutate():
+        G_ARRAY2[2] = 77.0
+
+    def restore():
+        G_ARRAY2[2] = 3.0
+
+    return _later_calls(later_array2, (_X3,), mutate, restore)
+
+
+def op_s_repeat_lib():
+    """to_model_proto / to_function_proto on a small library: a thin wrapper in a custom domain that uses no standard operator
+    itself, a function with attribute parameters (bound to their defaults in the model); exporting one function must not
+    modify it nor any other."""
+    from onnxscript.values import Opset
+    lib = Opset("c14.lib", 1)
+
+    @script(lib)
+    def lib_h(x):
+        return op.Relu(x)
+
+    @script(lib, default_opset=op)
+    def lib_g(x):
+        return lib_h(x)
+
+    @script()
+    def lib_f(x: FLOAT["N"]) -> FLOAT["N"]:
+        return lib_g(op.Abs(x))
+
+    @script(default_opset=op)
+    def lib_k(x: FLOAT["N"], alpha: float = 0.5, axis: int = 0) -> FLOAT["N"]:
+        return op.Softmax(op.LeakyRelu(x, alpha=alpha), axis=axis)
+
+    fns = [lib_h, lib_g, lib_f, lib_k]
+    before = [_ser(f.to_function_proto()) for f in fns]
+    graphs = [_ser(f.function_ir.to_graph_proto()) for f in fns]
+    models = {}
+    same = True
+    for rnd in range(3):
+        for i in (1, 3, 2, 0, 3, 1):
+            try:
+                b = _ser(fns[i].to_model_proto())
+            except Exception as e:  # noqa: BLE001
+                b = ("ERR " + type(e).__name__).encode()
+            if models.setdefault(i, b) != b:
+                same = False
+            if [_ser(f.to_function_proto()) for f in fns] != before or [_ser(f.function_ir.to_graph_proto()) for f in fns] != graphs:
+                same = False
+    return {"function": before[2], "model": models[2], "obs_k_model": __import__("hashlib").sha256(models[3]).hexdigest().encode(),
+            "flag": b"repeat-identical" if same else b"REPEAT-DIFFERS"}
+
+
 # failing decorations
 def op_x_bad_script_stmt():
     @script(default_opset=op)
@@ -851,5 +1134,116 @@ def op_s_domain_v2():
     return _script_result(use)
 
 
+# ------------------------------------------------------------------------------------------ version conversion of models with
+# model-local functions and subgraphs; to_model_proto with different options in sequence
+
+def _convert_model_fn_sub(opset):
+    inner = [helper.make_node("Softmax", ["a"], ["s"], axis=-1),
+             helper.make_node("ReduceSum", ["s", "ax"], ["r"], keepdims=1),
+             helper.make_node("Relu", ["r"], ["o"])]
+    f = helper.make_function("local", "SoftSum", ["a", "ax"], ["o"], inner, opset_imports=[helper.make_opsetid("", opset)])
+    then_g = helper.make_graph([helper.make_node("SoftSum", ["x", "axes"], ["t0"], domain="local"),
+                                helper.make_node("GridSample", ["img", "grid"], ["gs"], mode="bilinear"),
+                                helper.make_node("ReduceSum", ["gs", "axes4"], ["t1"], keepdims=0),
+                                helper.make_node("Add", ["t0", "t1"], ["t_out"])], "then", [], [_vi("t_out", [2, 1])])
+    else_g = helper.make_graph([helper.make_node("SoftSum", ["x", "axes"], ["e0"], domain="local"),
+                                helper.make_node("Neg", ["e0"], ["e_out"])], "else", [], [_vi("e_out", [2, 1])])
+    nodes = [helper.make_node("If", ["c"], ["y0"], then_branch=then_g, else_branch=else_g),
+             helper.make_node("SoftSum", ["y0", "axes"], ["y"], domain="local")]
+    g = helper.make_graph(nodes, "g", [_vi("x", [2, 3]), _vi("c", [], TensorProto.BOOL), _vi("img", [1, 1, 4, 4]), _vi("grid", [1, 2, 1, 2])],
+                          [_vi("y", [2, 1])], initializer=[_init("axes", [1]), _init("axes4", [0, 1, 3])])
+    return helper.make_model(g, opset_imports=[helper.make_opsetid("", opset), helper.make_opsetid("local", 1)], functions=[f], ir_version=8)
+
+
+def op_m_convert_fn_sub():
+    """a model with a model-local function (called from the main graph and from both If branches) converted 18 -> 21"""
+    from onnxscript import version_converter
+    m = _convert_model_fn_sub(18)
+    version_converter.convert_version(m, target_version=21)
+    return {"model": _ser(m)}
+
+
+def op_m_convert_fn_sub_b():
+    """the same model converted 18 -> 23"""
+    from onnxscript import version_converter
+    m = _convert_model_fn_sub(18)
+    version_converter.convert_version(m, target_version=23)
+    return {"model": _ser(m)}
+
+
+def op_m_convert_fn_sub_ir():
+    """the same conversion through the IR pass object"""
+    from onnxscript import ir, version_converter
+    m = ir.serde.deserialize_model(_convert_model_fn_sub(19))
+    version_converter.convert_version(m, target_version=22)
+    return {"model": _ser(ir.serde.serialize_model(m))}
+
+
+def op_s_proto_options():
+    """to_model_proto with different options in sequence: every option set gives the same bytes whenever it is used, and the
+    plain call is not affected by the calls with options in between"""
+    @script()
+    def opt_helper(x: FLOAT[None]) -> FLOAT[None]:
+        return op.Relu(x) * ALPHA
+
+    @script(default_opset=op, producer_name="c14")
+    def opt_main(x: FLOAT[None], c: BOOL) -> FLOAT[None]:
+        if c:
+            y = opt_helper(x) + 1.0
+        else:
+            y = x - 1.0
+        return y
+
+    calls = [{}, {"io_types": FLOAT[None]}, {"ir_version": 8}, {"opset_version": 17}, {"input_types": [FLOAT[3], BOOL], "output_types": [FLOAT[3]]},
+             {"value_infos": {"y": FLOAT[None]}}, {"producer_name": "other"}, {"functions": []}]
+    first = {}
+    same = True
+    order = [0, 1, 0, 2, 3, 1, 4, 0, 5, 6, 2, 7, 0, 4, 3, 5, 6, 7, 0]
+    f0 = _ser(opt_main.to_function_proto())
+    for i in order:
+        try:
+            b = _ser(opt_main.to_model_proto(**calls[i]))
+        except Exception as e:  # noqa: BLE001
+            b = ("ERR " + type(e).__name__).encode()
+        if first.setdefault(i, b) != b:
+            same = False
+    same = same and f0 == _ser(opt_main.to_function_proto())
+    import hashlib
+    digest = hashlib.sha256(b"".join(first[i] for i in sorted(first))).hexdigest().encode()
+    return {"function": f0, "model": first[0], "obs_options": digest, "flag": b"options-identical" if same else b"OPTIONS-DIFFER"}
+
+
+# ------------------------------------------------------------------------------------------ self-test of the oracle: a *user*
+# rule that keeps a counter on the rule object is history dependent by construction; the harness requires that the
+# comparison with the fresh process notices it (it is not a target of the property)
+
+_USER_RULESET = None
+
+
+def selftest_user_counter_rule():
+    global _USER_RULESET
+    from onnxscript.rewriter import RewriteRuleClassBase, RewriteRuleSet
+
+    class CountingRule(RewriteRuleClassBase):
+        def __init__(self):
+            super().__init__("CountingRule")
+            self.count = 0
+
+        def pattern(self, op_, x):
+            return op_.Relu(x)
+
+        def check(self, context, x):
+            self.count += 1
+            return True
+
+        def rewrite(self, op_, x):
+            return op_.Clip(x, op_.Constant(value_float=float(self.count)))
+
+    if _USER_RULESET is None:
+        _USER_RULESET = RewriteRuleSet([CountingRule.rule()])
+    m = _model([helper.make_node("Relu", ["x"], ["y"])], [_vi("x", [2])], [_vi("y", [2])])
+    return _rewrite(m, _USER_RULESET)
+
 
 OPS = {k[3:]: v for k, v in sorted(globals().items()) if k.startswith("op_") and callable(v)}
+OPS["t_rw_user_counter"] = selftest_user_counter_rule
